@@ -5,7 +5,7 @@ def step(pkg, run="^Test", **kw):
     d.update(kw)
     return d
 
-RECONCILE = lambda: [step("./c01_reconcile/", shards={"thorough": 16}, timeout={"quick": 900, "thorough": 5400})]
+RECONCILE = lambda: [step("./c01_reconcile/", shards={"thorough": 4}, timeout={"quick": 900, "thorough": 5400})]
 
 HOOK_COMMITS = ["ddf102b"]
 
